@@ -60,6 +60,10 @@ FIXED = [
  ("KF-C14-4", "C14", "741173b", "C14.resolves", "the reference of a method decorated with @tooled is that of a top-level function of the same name (the tooled copy's qualified name is the bare name): it selects another function, or none"),
  ("KF-C17-5", "C17", "6a8a761", "C17.stream", "a probe deactivated before it was ever activated completes its stream there and then (count() publishes 0): activated afterwards it delivers nothing"),
  ("KF-C04-7", "C04", "7cda4a2", "demo:findings/review/extra/demo_rebase_order.py", "for the calls a resumed generator makes, an overlay that was active when the generator started and is entered again after another one does not take precedence although it is the most recently activated (order of the pairs in proceed._rebase; side effect of a89bad3)"),
+ ("KF-C01-13", "C01", "c7da0f8", "demo:findings/review/R5/demo_3.py", "a function that declares a global it only reads, and that a callee creates during the call, fails with UnboundLocalError once instrumented; its own writes through forms the collector does not see (a match capture) stay in a local; closures created during the call keep the value the global had at entry (all three regressions of 3b96448, which dropped the declaration)"),
+ ("KF-C09-6", "C09", "ee71e64", "C09.no_foreign_events", "a generator that is advanced from inside the calls of another function keeps the pairs of every such call: 'pump > g > a' fires once per earlier call of pump for each binding, and still fires when the generator is advanced with no pump running (regression of a89bad3, which kept every pair whose probe is still active)"),
+ ("KF-C08-5", "C08", "7d76d0b", "demo:findings/review/R6/demo_5.py", "a reference resolved while another thread calls tooled() on the same function fails with 'Set changed size during iteration' (the set of tooled copies, 1a90fb0, was filled without the tooling lock)"),
+ ("KF-C14-5", "C14", "8f2b468", "demo:findings/review/R6/demo_4.py", "once a function that the module path does not lead to (defined inside another function, or hidden behind a decorator's wrapper) has a tooled copy, its reference is refused as ambiguous for good (regression of 1a90fb0)"),
  ("KF-C08-3", "C08", "a93c42f", "C08.no_exception", "a thread that selects a function through its reference string while another thread activates or deactivates a probe on it is refused: 'Reference ... cannot be resolved' / 'is ambiguous' (the lookup is not covered by the tooling lock)"),
  ("KF-C08-4", "C08", "184cfaa", "demo:findings/review/R3/demo_6b.py", "tooled.inplace runs outside the tooling lock: a probe activated by another thread in between leaves the function refused ('not properly tooled') for good (regression of be94eb2 + 58916a9)"),
  ("KF-C08-2", "C08", "13c39f3", "C08.thread_result", "a thread calling f by name while another thread's probe activation compiles f's variant runs the variant function object (its events are lost, or its self-reference global is not installed yet: NameError '_ptera__N')"),
